@@ -106,6 +106,22 @@ func (p hProg) render() string {
 			fmt.Fprintf(sb, "func use%d(m %s) int { return len(deriveSort%s(deriveKeys%s(m))) }\n\n", i, T, c.Name, c.Name)
 		case "fmapkeys":
 			fmt.Fprintf(sb, "func use%d(m %s) int { return len(deriveFmap%s(func(k %s) bool { return true }, deriveKeys%s(m))) }\n\n", i, T, c.Name, mapKeyOf(T), c.Name)
+		case "equalhash": // one call, or (Name ending in "+") two calls of different plugins on ONE source line
+			if strings.HasSuffix(c.Name, "+") {
+				// the second call is of the SAME plugin over another type (the order of the functions of one
+				// plugin in the file follows the order in which the calls are registered), plus one of another plugin
+				n := strings.TrimSuffix(c.Name, "+")
+				T2 := T
+				for _, a := range p.structArgs() {
+					if a != T {
+						T2 = a
+						break
+					}
+				}
+				fmt.Fprintf(sb, "func use%d(a, b %s, c, d %s) bool { return deriveEqual%s(a, b) && deriveEqual%sOther(c, d) && deriveHash%s(a) == deriveHash%s(b) }\n\n", i, T, T2, n, n, n, n)
+			} else {
+				fmt.Fprintf(sb, "func use%d(a, b %s) bool { return deriveEqual%s(a, b) }\n\n", i, T, c.Name)
+			}
 		case "deepchain": // four derive calls deep: every level only types after the one below it was generated
 			fmt.Fprintf(sb, "func use%d(m %s) int { return len(deriveUnique%s(deriveSort%s(deriveFmap%s(func(k %s) %s { return k }, deriveKeys%s(m))))) }\n\n", i, T, c.Name, c.Name, c.Name, mapKeyOf(T), mapKeyOf(T), c.Name)
 		case "curryflow": // the value flowing from the inner to the outer derive call is a FUNCTION over a program type
@@ -218,6 +234,17 @@ func (p hProg) dedupCalls() hProg {
 			keys = []string{"keys|" + c.Arg, "sort|" + mapKeyOf(c.Arg)}
 		case "fmapkeys":
 			keys = []string{"keys|" + c.Arg, "fmap|" + mapKeyOf(c.Arg)}
+		case "equalhash":
+			keys = []string{"equal|" + c.Arg}
+			if strings.HasSuffix(c.Name, "+") {
+				keys = append(keys, "hash|"+c.Arg)
+				for _, a := range p.structArgs() {
+					if a != c.Arg {
+						keys = append(keys, "equal|"+a)
+						break
+					}
+				}
+			}
 		case "deepchain":
 			keys = []string{"keys|" + c.Arg, "fmap|" + mapKeyOf(c.Arg), "sort|" + mapKeyOf(c.Arg), "unique|" + mapKeyOf(c.Arg)}
 		case "curryflow":
@@ -574,6 +601,34 @@ func checkC07(c *Ctx) {
 				cases = append(cases, c07Case{Name: fmt.Sprintf("c07-h%03d-rm%d", h, ci), Class: "history:remove-call", Desc: fmt.Sprintf("history %d: call %d of %d removed: one run over the full program's output", h, ci, len(prog.Calls)), Src: qsrc, Prior: prevRef.derived, HasPrev: true, PrevSrc: prevSrc})
 				if qref := c.genScratchOpt(qsrc, false); qref.exit == 0 && qref.exists {
 					cases = append(cases, c07Case{Name: fmt.Sprintf("c07-h%03d-add%d", h, ci), Class: "history:add-call", Desc: fmt.Sprintf("history %d: call %d of %d added back: one run over the output of the program without it", h, ci, len(prog.Calls)), Src: prevSrc, Prior: qref.derived, HasPrev: true, PrevSrc: qsrc})
+				}
+			}
+		}
+		// a second derive call appended on the SAME source line as an existing one (and taken away again)
+		if prevRef.exists {
+			args := prog.structArgs()
+			for _, first := range []string{"", "+"} {
+				q := prog.clone()
+				q.Calls = append(q.Calls, hCall{Kind: "equalhash", Name: "SameLine" + first, Arg: args[h%len(args)]})
+				q = q.dedupCalls()
+				if len(q.Calls) != len(prog.Calls)+1 {
+					continue
+				}
+				q2 := q.clone()
+				if first == "" {
+					q2.Calls[len(q2.Calls)-1].Name = "SameLine+"
+				} else {
+					q2.Calls[len(q2.Calls)-1].Name = "SameLine"
+				}
+				if len(q2.dedupCalls().Calls) != len(q2.Calls) {
+					continue
+				}
+				if qref := c.genScratchOpt(q.render(), false); qref.exit == 0 && qref.exists {
+					cls := "history:add-call-on-same-line"
+					if first == "+" {
+						cls = "history:remove-call-on-same-line"
+					}
+					cases = append(cases, c07Case{Name: fmt.Sprintf("c07-h%03d-line%d", h, len(first)), Class: cls, Desc: fmt.Sprintf("history %d: %s", h, cls), Src: q2.render(), Prior: qref.derived, HasPrev: true, PrevSrc: q.render()})
 				}
 			}
 		}
